@@ -29,7 +29,7 @@ theorem childIndex_real (p a s : ℝ) (hs : 0 < s) (h1 : a ≤ p) (h2 : p < a + 
     rw [this]; rfl
 
 /-- the clamp makes the child index 0 or 1 for every numeric type and every position -/
-theorem childIndex_le_one {α : Type} [Sub α] [Mul α] [Div α] [OfScientific α] [Trunc α] (p a s : α) :
+theorem childIndex_le_one {α : Type} [Sub α] [Mul α] [Div α] [OfScientific α] [GridNum.Trunc α] (p a s : α) :
     childIndex p a s ≤ 1 := by
   unfold childIndex; exact Nat.min_le_right _ _
 
